@@ -29,9 +29,15 @@ package suites
 import (
 	"bufio"
 	"fmt"
+	"go/ast"
+	"go/parser"
+	"go/token"
 	"math"
 	"math/rand"
 	"net"
+	"os"
+	"path/filepath"
+	"sort"
 	"strconv"
 	"strings"
 	"sync"
@@ -248,9 +254,13 @@ type c16Sess struct {
 }
 
 func c16Start(allowFlood bool) *c16Sess {
-	s := &c16Sess{sig: make(chan struct{}, 1), done: make(chan error, 1)}
-	s.c = girc.New(girc.Config{Server: "irc.test", Port: 6667, Nick: "me", User: "user", Name: "Real Name",
+	return c16StartCfg(girc.Config{Server: "irc.test", Port: 6667, Nick: "me", User: "user", Name: "Real Name",
 		AllowFlood: allowFlood, RecoverFunc: func(*girc.Client, *girc.HandlerError) {}})
+}
+
+func c16StartCfg(cfg girc.Config) *c16Sess {
+	s := &c16Sess{sig: make(chan struct{}, 1), done: make(chan error, 1)}
+	s.c = girc.New(cfg)
 	in, out := net.Pipe()
 	s.peer = in
 	go func() {
@@ -391,66 +401,29 @@ func c16CreditCheck(evs []*c16Sent, t0 time.Time) string {
 
 // ---- S: one sender, each line seen by the peer before the next Send; keep-alives inside
 
-func c16RunSync(lens []int, pongAt, pingAt int) (obs, pobs, oracle string) {
+func c16RunSync(lens []int) (obs, oracle string) {
 	for attempt := 0; ; attempt++ {
-		obs, pobs, oracle, overhead := c16RunSyncOnce(lens, pongAt, pingAt)
+		obs, oracle, overhead := c16RunSyncOnce(lens)
 		// the predicted pattern assumes less than 1.5 s of accumulated scheduling overhead
 		if overhead < 1400*time.Millisecond || attempt >= 2 || oracle != "" {
-			return obs, pobs, oracle
+			return obs, oracle
 		}
 	}
 }
 
-func c16RunSyncOnce(lens []int, pongAt, pingAt int) (obs, pobs, oracle string, overhead time.Duration) {
+func c16RunSyncOnce(lens []int) (obs, oracle string, overhead time.Duration) {
 	s := c16Start(false)
 	defer s.stop()
 	if len(lens) == 0 {
-		return "S=", "P=0/0", "", 0
+		return "S=", "", 0
 	}
 	first := time.Duration(c16Cost(int64(lens[0])))
 	t0, ok := s.idleUntil(first)
 	if !ok {
-		return "S=?disconnected", "P=?", "", 0
+		return "S=?disconnected", "", 0
 	}
 	if time.Since(t0) > time.Hour {
-		return "S=?unstamped", "P=?", "lastwrite-unstamped: the registration lines were written but lastWrite is still unset: every rate call forgives everything", 0
-	}
-	tok := strings.Repeat("k", 150)
-	var kaMu sync.Mutex
-	kaHeld, kaSeen := 0, 0
-	var kaWG sync.WaitGroup
-	keepalive := func(inject func(), prefix string) {
-		defer kaWG.Done()
-		time.Sleep(50 * time.Millisecond)
-		at := time.Now()
-		inject()
-		var arr time.Time
-		got := s.wait(func(a []c16Arrival) bool {
-			for _, x := range a {
-				if strings.HasPrefix(x.line, prefix) {
-					arr = x.at
-					return true
-				}
-			}
-			return false
-		}, 20*time.Second)
-		kaMu.Lock()
-		defer kaMu.Unlock()
-		if !got {
-			if oracle == "" {
-				oracle = "keepalive-lost: " + prefix + " never written"
-			}
-			return
-		}
-		kaSeen++
-		own := time.Duration(c16Cost(int64(len(prefix) + len(tok))))
-		if arr.Sub(at) >= own {
-			kaHeld++
-			if oracle == "" {
-				oracle = fmt.Sprintf("keepalive-delayed: %s written %.2fs after it was requested while the limiter was holding events (its own cost would be %.2fs)",
-					strings.TrimSpace(prefix), arr.Sub(at).Seconds(), own.Seconds())
-			}
-		}
+		return "S=?unstamped", "lastwrite-unstamped: the registration lines were written but lastWrite is still unset: every rate call forgives everything", 0
 	}
 	var evs []*c16Sent
 	var pat []byte
@@ -459,24 +432,15 @@ func c16RunSyncOnce(lens []int, pongAt, pingAt int) (obs, pobs, oracle string, o
 	for i, n := range lens {
 		e := &girc.Event{Command: girc.PRIVMSG, Params: []string{"#s0", c16Text(i, n)}}
 		if e.Len() != n {
-			return "?bad-len", "P=?", "", 0
+			return "?bad-len", "", 0
 		}
 		ev := &c16Sent{id: i, cost: time.Duration(c16Cost(int64(n)))}
-		if i == pongAt {
-			kaWG.Add(1)
-			go keepalive(func() { s.peer.Write([]byte("PING :pp" + tok + "\r\n")) }, "PONG pp")
-		}
-		if i == pingAt {
-			kaWG.Add(1)
-			go keepalive(func() { s.c.Cmd.Ping("cc" + tok) }, "PING cc")
-		}
 		ev.s = time.Now()
 		s.c.Send(e)
 		ev.ret = time.Now()
 		want := i + 1
 		if !s.wait(func(a []c16Arrival) bool { return c16Count(a, "PRIVMSG #s0 ") >= want }, 15*time.Second) {
-			kaWG.Wait()
-			return "S=?lost", "P=?", fmt.Sprintf("line-lost: event %d never reached the peer", i), 0
+			return "S=?lost", fmt.Sprintf("line-lost: event %d never reached the peer", i), 0
 		}
 		dur := ev.ret.Sub(ev.s)
 		if dur >= ev.cost {
@@ -492,7 +456,6 @@ func c16RunSyncOnce(lens []int, pongAt, pingAt int) (obs, pobs, oracle string, o
 		prevRet = ev.ret
 		evs = append(evs, ev)
 	}
-	kaWG.Wait()
 	k := 0
 	for _, a := range s.snapshot() {
 		if strings.HasPrefix(a.line, "PRIVMSG #s0 ") && k < len(evs) {
@@ -522,7 +485,106 @@ func c16RunSyncOnce(lens []int, pongAt, pingAt int) (obs, pobs, oracle string, o
 			oracle = "sync-burst-unthrottled: " + m
 		}
 	}
-	return "S=" + string(pat), fmt.Sprintf("P=%d/%d", kaHeld, kaSeen), oracle, overhead
+	return "S=" + string(pat), oracle, overhead
+}
+
+// ---- P: keep-alives while a Send is being held
+
+// rateStateNB reads the limiter state without ever blocking the scenario: ok is false when
+// the read did not return within 100 ms (somebody is sitting on the connection lock).
+func (s *c16Sess) rateStateNB() (wd time.Duration, ok bool) {
+	ch := make(chan time.Duration, 1)
+	go func() {
+		w, _, _ := s.c.VerifRateState()
+		ch <- w
+	}()
+	select {
+	case w := <-ch:
+		return w, true
+	case <-time.After(100 * time.Millisecond):
+		return 0, false
+	}
+}
+
+// The allowance is used up (accumulated delay set to 20 s).  For the server's PING and for
+// the client's own Cmd.Ping in turn: one goroutine starts a Send that is certainly held for
+// its cost (>= 3 s); as soon as its rate call is seen (the accumulated delay has grown, or
+// the limiter state cannot be read because the connection lock is being sat on), the
+// keep-alive is requested.  It must reach the peer BEFORE the held PRIVMSG and in less
+// than half the hold, both as seen by the peer.
+func c16RunKeepalive(lens []int) (obs, oracle string) {
+	s := c16Start(false)
+	defer s.stop()
+	if len(lens) != 2 || !s.c.VerifSetWriteDelay(20*time.Second) {
+		return "P=?", ""
+	}
+	held, seen := 0, 0
+	for round, n := range lens {
+		target := fmt.Sprintf("#p%d", round)
+		e := &girc.Event{Command: girc.PRIVMSG, Params: []string{target, c16Text(round, n)}}
+		if e.Len() != n || n < 200 {
+			return "?bad-len", ""
+		}
+		cost := time.Duration(c16Cost(int64(n)))
+		wd0, ok := s.rateStateNB()
+		if !ok {
+			return "P=?locked", "keepalive-delayed: the connection lock is held although no Send is in progress"
+		}
+		var sendDur time.Duration
+		done := make(chan struct{})
+		go func() {
+			t := time.Now()
+			s.c.Send(e)
+			sendDur = time.Since(t)
+			close(done)
+		}()
+		for i := 0; i < 3000; i++ { // until the rate call of that Send is seen
+			wd, ok := s.rateStateNB()
+			if !ok || wd > wd0 {
+				break
+			}
+			time.Sleep(time.Millisecond)
+		}
+		kind, prefix := "PONG", fmt.Sprintf("PONG kp%d", round)
+		at := time.Now()
+		if round == 0 {
+			s.peer.Write([]byte(fmt.Sprintf("PING :kp%d\r\n", round)))
+		} else {
+			kind, prefix = "PING", fmt.Sprintf("PING kp%d", round)
+			s.c.Cmd.Ping(fmt.Sprintf("kp%d", round))
+		}
+		<-done
+		heldPrefix := "PRIVMSG " + target + " "
+		if !s.wait(func(a []c16Arrival) bool { return c16Count(a, heldPrefix) >= 1 && c16Count(a, prefix) >= 1 }, 15*time.Second) {
+			return "P=?lost", fmt.Sprintf("keepalive-lost: %s or the held event never written", prefix)
+		}
+		if sendDur < cost {
+			return "P=?nothold", fmt.Sprintf("not-held: a %d-byte event sent with 20s of accumulated delay was not held (Send took %.3fs)", n, sendDur.Seconds())
+		}
+		ki, hi := -1, -1
+		var karr time.Time
+		for i, a := range s.snapshot() {
+			if ki < 0 && strings.HasPrefix(a.line, prefix) {
+				ki, karr = i, a.at
+			}
+			if hi < 0 && strings.HasPrefix(a.line, heldPrefix) {
+				hi = i
+			}
+		}
+		seen++
+		if ki > hi || karr.Sub(at) >= cost/2 {
+			held++
+			if oracle == "" {
+				order := "before"
+				if ki > hi {
+					order = "AFTER"
+				}
+				oracle = fmt.Sprintf("keepalive-delayed: %s reached the peer %.3fs after it was requested, %s the PRIVMSG that the limiter was holding for %.2fs at the time",
+					kind, karr.Sub(at).Seconds(), order, cost.Seconds())
+			}
+		}
+	}
+	return fmt.Sprintf("P=%d/%d", held, seen), oracle
 }
 
 // ---- X: one sender uses the allowance up, then one Send that is split into pieces
@@ -781,6 +843,15 @@ func c16RunWire(c Case) Result {
 	var wg sync.WaitGroup
 	for i := range c {
 		f := strings.Split(c[i], " ")
+		if f[0] == "H" && len(f) >= 3 {
+			wg.Add(1)
+			go func(i int, f []string) {
+				defer wg.Done()
+				obs[i], orc[i] = c16RunHelpers(f[1] == "1", f[2] == "1", f[3:])
+				sigs[i] = "H" + f[1] + f[2]
+			}(i, f)
+			continue
+		}
 		nums, ok := c16Ints(f[1:])
 		if !ok || len(f) < 2 {
 			obs[i] = "?scenario"
@@ -788,27 +859,19 @@ func c16RunWire(c Case) Result {
 		}
 		switch f[0] {
 		case "S":
-			pong, ping := -1, -1
-			pi := -1
-			if i+1 < len(c) && strings.HasPrefix(c[i+1], "P ") {
-				if pn, ok := c16Ints(strings.Split(c[i+1], " ")[1:]); ok && len(pn) == 2 {
-					pong, ping, pi = pn[0], pn[1], i+1
-				}
-			}
 			wg.Add(1)
-			go func(i, pi int) {
+			go func(i int) {
 				defer wg.Done()
-				var p string
-				obs[i], p, orc[i] = c16RunSync(nums, pong, ping)
-				if pi >= 0 {
-					obs[pi] = p
-				}
+				obs[i], orc[i] = c16RunSync(nums)
 				sigs[i] = fmt.Sprintf("S%d:%dU", len(nums), strings.Count(obs[i], "U"))
-			}(i, pi)
+			}(i)
 		case "P":
-			if i == 0 || !strings.HasPrefix(c[i-1], "S ") {
-				obs[i] = "?scenario"
-			}
+			wg.Add(1)
+			go func(i int) {
+				defer wg.Done()
+				obs[i], orc[i] = c16RunKeepalive(nums)
+				sigs[i] = "P"
+			}(i)
 		case "T":
 			wg.Add(1)
 			go func(i int) {
@@ -901,20 +964,6 @@ func c16Join(kind string, v []int) string {
 func c16GenWire(r *rand.Rand) Case {
 	n := 11 + r.Intn(4)
 	sl := c16GenSyncLens(r, n)
-	// first held event of the ideal run
-	var sum int64
-	k := len(sl)
-	for i := 1; i < len(sl); i++ {
-		sum += c16Cost(int64(sl[i]))
-		if sum > c16Threshold {
-			k = i
-			break
-		}
-	}
-	pong, ping := k+1, k+2
-	if ping >= len(sl) {
-		pong, ping = len(sl)-2, len(sl)-1
-	}
 	t1 := make([]int, 11+r.Intn(4))
 	for i := range t1 {
 		t1[i] = 16 + r.Intn(30)
@@ -938,8 +987,14 @@ func c16GenWire(r *rand.Rand) Case {
 		}
 	}
 	textlen := (linelen - 96 - 13) * (24 + r.Intn(6)) / 10
-	c := Case{c16Join("S", sl), c16Join("P", []int{pong, ping}), c16Join("T", append([]int{1}, t1...)),
+	c := Case{c16Join("S", sl), c16Join("P", []int{200 + r.Intn(100), 200 + r.Intn(100)}), c16Join("T", append([]int{1}, t1...)),
 		c16Join("T", append([]int{3}, t3...)), "F 50", c16Join("X", append(append([]int{linelen}, xl...), textlen))}
+	for _, v := range [][2]string{{"0", "0"}, {"1", "0"}, {"0", "1"}, {"1", "1"}} {
+		names := c16AllHelperNames()
+		r.Shuffle(len(names), func(i, j int) { names[i], names[j] = names[j], names[i] })
+		names = append(names, "Client.Quit")
+		c = append(c, "H "+v[0]+" "+v[1]+" "+strings.Join(names, " "))
+	}
 	return append(c, c16Checksum(c))
 }
 
@@ -982,5 +1037,521 @@ func init() {
 		Prop: []string{"C16"},
 		Gen:  c16GenWire,
 		Run:  c16RunWire,
+	})
+}
+
+// ---------------------------------------------------------------- every exported sender
+
+// c16Helper is one exported way of sending: its name (as in Model/Rate.v entry_points), a
+// call that makes it send exactly `events` lines containing the token, and whether it is a
+// keep-alive (routed around the limiter).
+type c16Helper struct {
+	name      string
+	events    int
+	keepalive bool
+	call      func(c *girc.Client, tok string)
+}
+
+func c16SrcEvent(tok string, channel bool) girc.Event {
+	e := girc.Event{Source: &girc.Source{Name: "n" + tok, Ident: "i", Host: "h"}, Command: girc.PRIVMSG, Params: []string{"me", "hi"}}
+	if channel {
+		e.Params[0] = "#" + tok
+	}
+	return e
+}
+
+// one row per exported method of *girc.Commands (a second row where a method has two send
+// paths), plus Client.Send and Client.Quit.  Client.Quit must stay last (the connection
+// ends once QUIT is written).
+var c16Helpers = []c16Helper{
+	{"Nick", 1, false, func(c *girc.Client, t string) { c.Cmd.Nick(t) }},
+	{"Join", 1, false, func(c *girc.Client, t string) { c.Cmd.Join("#" + t) }},
+	{"JoinKey", 1, false, func(c *girc.Client, t string) { c.Cmd.JoinKey("#"+t, "key") }},
+	{"Part", 1, false, func(c *girc.Client, t string) { c.Cmd.Part("#" + t) }},
+	{"PartMessage", 1, false, func(c *girc.Client, t string) { c.Cmd.PartMessage("#"+t, "bye") }},
+	{"SendCTCP", 1, false, func(c *girc.Client, t string) { c.Cmd.SendCTCP(t, "VERSION", "") }},
+	{"SendCTCPf", 1, false, func(c *girc.Client, t string) { c.Cmd.SendCTCPf(t, "PING", "%d", 7) }},
+	{"SendCTCPReplyf", 1, false, func(c *girc.Client, t string) { c.Cmd.SendCTCPReplyf(t, "PING", "%d", 7) }},
+	{"SendCTCPReply", 1, false, func(c *girc.Client, t string) { c.Cmd.SendCTCPReply(t, "VERSION", "v") }},
+	{"Message", 1, false, func(c *girc.Client, t string) { c.Cmd.Message(t, "hello") }},
+	{"Messagef", 1, false, func(c *girc.Client, t string) { c.Cmd.Messagef(t, "n=%d", 1) }},
+	{"Reply", 1, false, func(c *girc.Client, t string) { c.Cmd.Reply(c16SrcEvent(t, true), "re") }},
+	{"Reply/private", 1, false, func(c *girc.Client, t string) { c.Cmd.Reply(c16SrcEvent(t, false), "re") }},
+	{"Replyf", 1, false, func(c *girc.Client, t string) { c.Cmd.Replyf(c16SrcEvent(t, true), "re %d", 2) }},
+	{"ReplyTo", 1, false, func(c *girc.Client, t string) { c.Cmd.ReplyTo(c16SrcEvent(t, true), "re") }},
+	{"ReplyTo/private", 1, false, func(c *girc.Client, t string) { c.Cmd.ReplyTo(c16SrcEvent(t, false), "re") }},
+	{"ReplyTof", 1, false, func(c *girc.Client, t string) { c.Cmd.ReplyTof(c16SrcEvent(t, true), "re %d", 3) }},
+	{"Action", 1, false, func(c *girc.Client, t string) { c.Cmd.Action(t, "waves") }},
+	{"Actionf", 1, false, func(c *girc.Client, t string) { c.Cmd.Actionf(t, "waves %d", 4) }},
+	{"Notice", 1, false, func(c *girc.Client, t string) { c.Cmd.Notice(t, "note") }},
+	{"Noticef", 1, false, func(c *girc.Client, t string) { c.Cmd.Noticef(t, "note %d", 5) }},
+	{"SendRaw", 1, false, func(c *girc.Client, t string) { c.Cmd.SendRaw("PRIVMSG " + t + " :raw text") }},
+	{"SendRaw/other", 1, false, func(c *girc.Client, t string) { c.Cmd.SendRaw("VERSION " + t) }},
+	{"SendRawf", 1, false, func(c *girc.Client, t string) { c.Cmd.SendRawf("NOTICE %s :raw %d", t, 6) }},
+	{"Topic", 1, false, func(c *girc.Client, t string) { c.Cmd.Topic("#"+t, "topic") }},
+	{"Who", 1, false, func(c *girc.Client, t string) { c.Cmd.Who(t) }},
+	{"Whois", 1, false, func(c *girc.Client, t string) { c.Cmd.Whois(t) }},
+	{"Ping", 1, true, func(c *girc.Client, t string) { c.Cmd.Ping(t) }},
+	{"Pong", 1, true, func(c *girc.Client, t string) { c.Cmd.Pong(t) }},
+	{"Oper", 1, false, func(c *girc.Client, t string) { c.Cmd.Oper(t, "pw") }},
+	{"Kick", 1, false, func(c *girc.Client, t string) { c.Cmd.Kick("#"+t, "bob", "") }},
+	{"Kick/reason", 2, false, func(c *girc.Client, t string) { c.Cmd.Kick("#"+t, "bob", "out") }},
+	{"Ban", 1, false, func(c *girc.Client, t string) { c.Cmd.Ban("#"+t, "*!*@h") }},
+	{"Unban", 1, false, func(c *girc.Client, t string) { c.Cmd.Unban("#"+t, "*!*@h") }},
+	{"Mode", 1, false, func(c *girc.Client, t string) { c.Cmd.Mode("#"+t, "+o", "bob") }},
+	{"Invite", 1, false, func(c *girc.Client, t string) { c.Cmd.Invite("#"+t, "bob") }},
+	{"Away", 1, false, func(c *girc.Client, t string) { c.Cmd.Away("gone " + t) }},
+	{"List", 1, false, func(c *girc.Client, t string) { c.Cmd.List("#" + t) }},
+	{"Whowas", 1, false, func(c *girc.Client, t string) { c.Cmd.Whowas(t, 2) }},
+	{"Monitor", 1, false, func(c *girc.Client, t string) { c.Cmd.Monitor('+', t) }},
+	{"Client.Send", 1, false, func(c *girc.Client, t string) {
+		c.Send(&girc.Event{Command: girc.PRIVMSG, Params: []string{t, "direct"}})
+	}},
+	{"Client.Quit", 1, false, func(c *girc.Client, t string) { c.Quit("bye " + t) }},
+}
+
+// Away("") / Back() and List() carry no argument a token could ride in: they are exercised
+// with the distinct command words they alone produce in this scenario.
+var c16HelpersNoToken = []c16Helper{
+	{"Back", 1, false, func(c *girc.Client, t string) { c.Cmd.Back() }},
+	{"Away/empty", 1, false, func(c *girc.Client, t string) { c.Cmd.Away("") }},
+	{"List/all", 1, false, func(c *girc.Client, t string) { c.Cmd.List() }},
+}
+
+func c16HelperByName(name string) (c16Helper, bool) {
+	for _, h := range c16Helpers {
+		if h.name == name {
+			return h, true
+		}
+	}
+	for _, h := range c16HelpersNoToken {
+		if h.name == name {
+			return h, true
+		}
+	}
+	return c16Helper{}, false
+}
+
+func c16AllHelperNames() []string {
+	var out []string
+	for _, h := range c16Helpers {
+		if h.name != "Client.Quit" {
+			out = append(out, h.name)
+		}
+	}
+	for _, h := range c16HelpersNoToken {
+		out = append(out, h.name)
+	}
+	return out
+}
+
+func c16BareLine(name string) string {
+	switch name {
+	case "Back", "Away/empty":
+		return "AWAY"
+	case "List/all":
+		return "LIST"
+	}
+	return ""
+}
+
+// the line(s) a helper produced: by token, or for the token-less ones by exact line (never
+// two senders of the same bare line in one batch, and a batch is over before the next starts)
+func c16HelperMatch(name, tok string) func(line string) bool {
+	if b := c16BareLine(name); b != "" {
+		return func(l string) bool { return l == b }
+	}
+	return func(l string) bool { return strings.Contains(l, tok) }
+}
+
+// H: every exported sender, with the allowance used up (accumulated delay 30 s).  Helpers
+// are started one after the other in batches of nine; a helper counts as started once
+// either its line is at the peer (it was not rated at all) or the accumulated delay has
+// grown (its rate call is done: it is sleeping).  After a batch is started a marker PING is
+// sent through Cmd.Ping; an event that the limiter holds reaches the peer after the marker,
+// at least its cost after the helper was called.
+//
+//	'H' rated and held   'r' rated, not held   'U' not rated   '?' unknown name   '!' stuck
+func c16RunHelpers(gf, af bool, names []string) (obs, oracle string) {
+	s := c16StartCfg(girc.Config{Server: "irc.test", Port: 6667, Nick: "me", User: "user", Name: "Real Name",
+		AllowFlood: af, GlobalFormat: gf, RecoverFunc: func(*girc.Client, *girc.HandlerError) {}})
+	defer s.stop()
+	if !s.c.VerifSetWriteDelay(30 * time.Second) {
+		return "H=?disconnected", ""
+	}
+	res := make([]byte, len(names))
+	for i := range res {
+		res[i] = '?'
+	}
+	type started struct {
+		idx    int
+		h      c16Helper
+		tok    string
+		at     time.Time
+		rated  bool
+		done   chan struct{}
+		panicv interface{}
+	}
+	fail := func(msg string) {
+		if oracle == "" {
+			oracle = msg
+		}
+	}
+	// batches of nine; Client.Quit alone (the connection ends once QUIT is written)
+	var bounds [][2]int
+	for lo := 0; lo < len(names); {
+		hi := lo
+		bare := map[string]bool{} // AWAY / LIST: at most one sender of each bare line per batch
+		for hi < len(names) && hi-lo < 9 && (names[hi] != "Client.Quit" || hi == lo) {
+			if b := c16BareLine(names[hi]); b != "" {
+				if bare[b] {
+					break
+				}
+				bare[b] = true
+			}
+			hi++
+			if names[hi-1] == "Client.Quit" {
+				break
+			}
+		}
+		bounds = append(bounds, [2]int{lo, hi})
+		lo = hi
+	}
+	batchNo := 0
+	for _, bd := range bounds {
+		lo, hi := bd[0], bd[1]
+		var batch []*started
+		for i := lo; i < hi; i++ {
+			h, ok := c16HelperByName(names[i])
+			if !ok {
+				continue
+			}
+			st := &started{idx: i, h: h, tok: fmt.Sprintf("zq%02dx", i), done: make(chan struct{})}
+			match := c16HelperMatch(h.name, st.tok)
+			base := 0
+			for _, a := range s.snapshot() {
+				if match(a.line) {
+					base++
+				}
+			}
+			wd0, ok := s.rateStateNB()
+			if !ok {
+				res[i] = '!'
+				fail("keepalive-delayed: the connection lock is held while no Send is being rated")
+				continue
+			}
+			st.at = time.Now()
+			go func() {
+				defer func() { st.panicv = recover(); close(st.done) }()
+				h.call(s.c, st.tok)
+			}()
+			decided := false
+			for k := 0; k < 5000 && !decided; k++ {
+				if wd, ok := s.rateStateNB(); !ok || wd > wd0 {
+					st.rated, decided = true, true
+					break
+				}
+				n := 0
+				for _, a := range s.snapshot() {
+					if match(a.line) {
+						n++
+					}
+				}
+				if n > base {
+					decided = true
+					break
+				}
+				time.Sleep(time.Millisecond)
+			}
+			if !decided {
+				res[i] = '!'
+				fail(fmt.Sprintf("line-lost: %s neither reached the limiter nor the wire within 5s", h.name))
+				continue
+			}
+			batch = append(batch, st)
+		}
+		// the marker
+		batchNo++
+		mk := fmt.Sprintf("mk%02dq", batchNo)
+		anyRated := false
+		for _, st := range batch {
+			anyRated = anyRated || st.rated
+		}
+		if anyRated { // nothing to order against otherwise (and after an unheld QUIT the connection is gone)
+			s.c.Cmd.Ping(mk)
+			if !s.wait(func(a []c16Arrival) bool { return c16Count(a, "PING "+mk) >= 1 }, 10*time.Second) {
+				fail("keepalive-lost: marker PING never written")
+			}
+		}
+		for _, st := range batch {
+			select {
+			case <-st.done:
+			case <-time.After(20 * time.Second):
+				fail(fmt.Sprintf("line-lost: %s did not return within 20s", st.h.name))
+			}
+			if st.panicv != nil {
+				fail(fmt.Sprintf("panic: %s: %v", st.h.name, st.panicv))
+			}
+		}
+		for _, st := range batch {
+			match := c16HelperMatch(st.h.name, st.tok)
+			want := st.h.events
+			s.wait(func(a []c16Arrival) bool {
+				n := 0
+				for _, x := range a {
+					if match(x.line) && !x.at.Before(st.at) {
+						n++
+					}
+				}
+				return n >= want
+			}, 10*time.Second)
+			arr := s.snapshot()
+			mki := -1
+			for i, a := range arr {
+				if strings.HasPrefix(a.line, "PING "+mk) {
+					mki = i
+				}
+			}
+			n, afterMarker, early := 0, true, ""
+			for i, a := range arr {
+				if !match(a.line) || a.at.Before(st.at) {
+					continue
+				}
+				n++
+				if i < mki {
+					afterMarker = false
+				}
+				if cost := time.Duration(c16Cost(int64(len(a.line)))); a.at.Sub(st.at) < cost {
+					early = fmt.Sprintf("%q reached the peer %.3fs after %s was called, its cost is %.2fs", a.line, a.at.Sub(st.at).Seconds(), st.h.name, cost.Seconds())
+				}
+			}
+			switch {
+			case n < want:
+				res[st.idx] = '!'
+				fail(fmt.Sprintf("line-lost: %s wrote %d of %d lines", st.h.name, n, want))
+			case !st.rated:
+				res[st.idx] = 'U'
+			case afterMarker && early == "":
+				res[st.idx] = 'H'
+			default:
+				res[st.idx] = 'r'
+			}
+			// the property on the implementation
+			switch {
+			case res[st.idx] == '!':
+			case st.h.keepalive || af:
+				if res[st.idx] != 'U' {
+					cls := "keepalive-delayed"
+					if !st.h.keepalive {
+						cls = "allowflood-delayed"
+					}
+					fail(fmt.Sprintf("%s: %s went through the limiter (GlobalFormat=%v AllowFlood=%v)", cls, st.h.name, gf, af))
+				}
+			case res[st.idx] == 'U':
+				fail(fmt.Sprintf("limiter-bypassed: %s wrote its event without consulting the limiter although the allowance was used (GlobalFormat=%v)", st.h.name, gf))
+			case res[st.idx] == 'r':
+				fail(fmt.Sprintf("not-held: %s: %s (GlobalFormat=%v)", st.h.name, early, gf))
+			}
+		}
+	}
+	return "H=" + string(res), oracle
+}
+
+// ---------------------------------------------------------------- rate.entry (static)
+
+// The route of every exported sender, read off the source of the repository under check
+// (commands.go, client.go, conn.go): "send" if it reaches Client.Send only, "write" if it
+// reaches the unthrottled Client.write (or the tx queue) only, "mixed" if both, "none".
+// Client.Send itself is "send" when its body consults ircConn.rate.
+func c16RepoDir() string {
+	if d := os.Getenv("VERIF_REPO"); d != "" {
+		return d
+	}
+	return "/repo"
+}
+
+var (
+	c16RoutesOnce sync.Once
+	c16Routes     map[string]string
+)
+
+func c16StaticRoutes() map[string]string {
+	c16RoutesOnce.Do(func() {
+		c16Routes = map[string]string{}
+		fset := token.NewFileSet()
+		direct := map[string]map[string]bool{} // method -> {"send","write"}
+		deps := map[string][]string{}
+		scan := func(file, recvType, prefix string) {
+			f, err := parser.ParseFile(fset, filepath.Join(c16RepoDir(), file), nil, 0)
+			if err != nil {
+				return
+			}
+			for _, d := range f.Decls {
+				fd, ok := d.(*ast.FuncDecl)
+				if !ok || fd.Recv == nil || len(fd.Recv.List) != 1 || fd.Body == nil || !fd.Name.IsExported() {
+					continue
+				}
+				st, ok := fd.Recv.List[0].Type.(*ast.StarExpr)
+				if !ok {
+					continue
+				}
+				id, ok := st.X.(*ast.Ident)
+				if !ok || id.Name != recvType {
+					continue
+				}
+				recv := ""
+				if len(fd.Recv.List[0].Names) == 1 {
+					recv = fd.Recv.List[0].Names[0].Name
+				}
+				name := prefix + fd.Name.Name
+				direct[name] = map[string]bool{}
+				ast.Inspect(fd.Body, func(n ast.Node) bool {
+					switch x := n.(type) {
+					case *ast.SendStmt: // something <- event
+						direct[name]["write"] = true
+					case *ast.CallExpr:
+						sel, ok := x.Fun.(*ast.SelectorExpr)
+						if !ok {
+							return true
+						}
+						switch sel.Sel.Name {
+						case "Send":
+							direct[name]["send"] = true
+						case "write":
+							direct[name]["write"] = true
+						case "rate":
+							direct[name]["rate"] = true
+						default:
+							// a call of another method of the same receiver (cmd.Message, ...)
+							if base, ok := sel.X.(*ast.Ident); ok && base.Name == recv && recvType == "Commands" {
+								deps[name] = append(deps[name], sel.Sel.Name)
+							}
+							// c.Cmd.X from a Client method
+							if inner, ok := sel.X.(*ast.SelectorExpr); ok && inner.Sel.Name == "Cmd" {
+								deps[name] = append(deps[name], sel.Sel.Name)
+							}
+						}
+					}
+					return true
+				})
+			}
+		}
+		scan("commands.go", "Commands", "")
+		var reach func(name string, seen map[string]bool) map[string]bool
+		reach = func(name string, seen map[string]bool) map[string]bool {
+			out := map[string]bool{}
+			if seen[name] {
+				return out
+			}
+			seen[name] = true
+			for k := range direct[name] {
+				out[k] = true
+			}
+			for _, d := range deps[name] {
+				for k := range reach(d, seen) {
+					out[k] = true
+				}
+			}
+			return out
+		}
+		names := []string{}
+		for n := range direct {
+			names = append(names, n)
+		}
+		for _, n := range names {
+			r := reach(n, map[string]bool{})
+			switch {
+			case r["send"] && r["write"]:
+				c16Routes[n] = "mixed"
+			case r["send"]:
+				c16Routes[n] = "send"
+			case r["write"]:
+				c16Routes[n] = "write"
+			default:
+				c16Routes[n] = "none"
+			}
+		}
+		// Client.Send (conn.go) and Client.Quit (client.go)
+		direct, deps = map[string]map[string]bool{}, map[string][]string{}
+		scan("conn.go", "Client", "Client.")
+		scan("client.go", "Client", "Client.")
+		if d, ok := direct["Client.Send"]; ok {
+			switch {
+			case d["rate"] && d["write"]:
+				c16Routes["Client.Send"] = "send" // rate, sleep, write: the limited path itself
+			case d["write"]:
+				c16Routes["Client.Send"] = "write"
+			default:
+				c16Routes["Client.Send"] = "none"
+			}
+		}
+		if d, ok := direct["Client.Quit"]; ok {
+			switch {
+			case d["send"] && d["write"]:
+				c16Routes["Client.Quit"] = "mixed"
+			case d["send"]:
+				c16Routes["Client.Quit"] = "send"
+			case d["write"]:
+				c16Routes["Client.Quit"] = "write"
+			default:
+				c16Routes["Client.Quit"] = "none"
+			}
+		}
+	})
+	return c16Routes
+}
+
+func init() {
+	Register(&Suite{
+		Name:       "rate.entry",
+		Prop:       []string{"C16"},
+		Exhaustive: "every exported method of *Commands in commands.go, Client.Send and Client.Quit, plus every name of the model's entry-point table",
+		Fixed: func() []Case {
+			seen := map[string]bool{}
+			var names []string
+			add := func(n string) {
+				if i := strings.IndexByte(n, '/'); i >= 0 {
+					n = n[:i]
+				}
+				if !seen[n] {
+					seen[n] = true
+					names = append(names, n)
+				}
+			}
+			for n := range c16StaticRoutes() {
+				add(n)
+			}
+			for _, n := range c16AllHelperNames() {
+				add(n)
+			}
+			add("Client.Quit")
+			sort.Strings(names)
+			out := make([]Case, len(names))
+			for i, n := range names {
+				out[i] = Case{n}
+			}
+			return out
+		},
+		Run: func(c Case) Result {
+			if len(c) != 1 {
+				return Result{Obs: "?bad-args"}
+			}
+			route, ok := c16StaticRoutes()[c[0]]
+			if !ok {
+				return Result{Obs: "absent", Sig: "absent"}
+			}
+			oracle := ""
+			keep := c[0] == "Ping" || c[0] == "Pong"
+			switch {
+			case keep && route != "write":
+				oracle = fmt.Sprintf("keepalive-delayed: %s does not go straight to Client.write (static route: %s)", c[0], route)
+			case !keep && route != "send":
+				oracle = fmt.Sprintf("limiter-bypassed: %s can reach the wire without Client.Send (static route: %s)", c[0], route)
+			}
+			if _, listed := c16HelperByName(c[0]); !listed {
+				oracle = fmt.Sprintf("sender-unlisted: exported sender %s is not in the table of rate.wire scenario H", c[0])
+			}
+			return Result{Obs: route, Oracle: oracle, Sig: route}
+		},
 	})
 }
